@@ -33,7 +33,7 @@ func c16Enum(t Tier, ev *Evidence) []Violation {
 	evals, distinct := 0, 0
 	u64 := []uint64{0, 1, 2, 3, 1<<63 - 1, 1 << 63, ^uint64(0)}
 	denoms := []string{"", " ", "nund", "n", "Nund!", strings.Repeat("a", 129), "a/b:c._-d", "9ab"}
-	signers := []string{"", "S1", "S1,S2", "S1,S2,S3", "S1,", "S1,!xyz", "!cosmos1qqqqqqqqqqqqqqqqqqqqqqqqqqqqqqqqnrql8a", "S1,S1"}
+	signers := []string{"", "S1", "S1,S2", "S1,S2,S3", "S1,", "S1,!xyz", "!cosmos1qqqqqqqqqqqqqqqqqqqqqqqqqqqqqqqqnrql8a", "S1,S1", "S1,~S2", "S1~,S2", "~~S1", "S1,S2~~"}
 	// enterprise
 	for _, d := range denoms {
 		for _, min := range u64 {
@@ -157,13 +157,27 @@ func feeProbe(e *Exec) []Disc {
 		return nil
 	}
 	cur := e.M.Wrk.P.FeeRec
-	for _, off := range []uint64{cur, cur + 1} {
+	// a rejected CheckTx leaves the check state alone, an admitted one advances the signer's sequence
+	// there until the next commit: the wrong amounts are probed first (in both CheckTx modes), the right
+	// amount last
+	for _, pr := range []struct {
+		off  uint64
+		mode string
+	}{{cur + 1, "new"}, {cur + 1, "recheck"}, {cur - 1, "recheck"}, {cur, "new"}} {
+		if pr.off == 0 {
+			continue
+		}
 		msg := model.Msg{Kind: model.WrkRec, From: "W1", ID: id, H: e.M.Wrk.Ents[id].Last + 1, S: []string{"0xprobe", "", "", "", ""}}
-		bz, err := e.W.Sign(BuildTx(e.W, model.Tx{Msgs: []model.Msg{msg}, Fee: fee(off)}))
+		bz, err := e.W.Sign(BuildTx(e.W, model.Tx{Msgs: []model.Msg{msg}, Fee: fee(pr.off)}))
 		must(err)
-		r := e.W.CheckTx(bz)
-		if (r.Code == 0) != (off == cur) {
-			out = append(out, disc("params.feeprobe", "record fee parameter is %d: CheckTx of a record offering %d nund returned code %d (%s)", cur, off, r.Code, firstLine(r.Log)))
+		var r mc.TxRes
+		if pr.mode == "new" {
+			r = e.W.CheckTx(bz)
+		} else {
+			r = e.W.ReCheckTx(bz) // what the mempool runs after every commit for the transactions it still holds
+		}
+		if (r.Code == 0) != (pr.off == cur) {
+			out = append(out, disc("params.feeprobe", "record fee parameter is %d: CheckTx (%s) of a record offering %d nund returned code %d (%s)", cur, pr.mode, pr.off, r.Code, firstLine(r.Log)))
 		}
 	}
 	return out
@@ -201,6 +215,7 @@ func c16Scenario() *Scenario {
 		gov2("gov(ent:min=2^64-1,INVALID)", model.EntParams, ent("S1", ^uint64(0), 100)),
 		gov2("gov(ent:signers=S1,xyz,INVALID)", model.EntParams, ent("S1,!xyz", 1, 100)),
 		gov2("gov(ent:min=2of1,INVALID)", model.EntParams, ent("S1", 2, 100)),
+		gov2("gov(ent:signers=S1,<space>S2;min=2,INVALID)", model.EntParams, ent("S1,~S2", 2, 100)),
 		gov2("gov(wrk:fees=5/1/1;default=3;max=6)", model.WrkParams, anch(5, 1, 1, 3, 6)),
 		gov2("gov(wrk:max=2)", model.WrkParams, anch(24, 2, 3, 2, 2)),
 		gov2("gov(wrk:default=5>max=3,INVALID)", model.WrkParams, anch(24, 2, 3, 5, 3)),
